@@ -36,7 +36,7 @@ pub fn mutate(g: &mut Gen, rule: &str) -> String {
 
 pub fn noise(g: &mut Gen, n: usize) -> String { (0..n).map(|_| ALPHABET[g.rng.below(ALPHABET.len())]).collect::<Vec<_>>().concat() }
 
-fn alias_line(g: &mut Gen, derom: bool) -> String {
+pub fn alias_line(g: &mut Gen, derom: bool) -> String {
     let repl = ["sh", "tt", "á", "+@{acute}", "\\u{00FE}", "@{Space}", "x"][g.rng.below(7)];
     let seg = match g.rng.below(4) { 0 => "ʃ".to_string(), 1 => "a:[+stress]".to_string(), 2 => "V:[+long]".to_string(), _ => g.seg() };
     if derom { format!("{repl} > {seg}") } else if g.rng.chance(1, 6) { "$ > *".to_string() } else { format!("{seg} > {repl}") }
